@@ -50,6 +50,82 @@ CHECKS.append({
             "integer or dyadic; the model mirrors /repo with the six C19 fix commits; harness recording proxy.",
 })
 
+CHECKS.append({
+    "property_id": "C10",
+    "category": "proof",
+    "technique": "Lean 4 proof of a certifying mirror of solve_hungarian (loop invariant: hungarian_certifies) + verified "
+                 "optimality checker on the implementation's assignment + mirror correspondence",
+    "text": "hungarian_certifies / hungarian_optimal: for every rectangular rational matrix and either sense the Lean mirror "
+            "of solve_hungarian (1-indexed potentials, min_slack/way arrays, zero padding, max_val - c) never gets stuck and "
+            "returns a matching of size min(rows, cols) whose total is the minimum / maximum over all such matchings "
+            "(potentials_cert, padding_sound, chkAssignment_optimal). On every run the real implementation's assignment is "
+            "judged by the proved-sound checker chkAssignment against the mirror's potentials - each accepted case is a proof "
+            "of optimality for that input - and must equal the mirror's assignment.",
+    "note": "Trusted: Lean kernel + standard axioms; float arithmetic modelled over Rat (exact on the generated integer/dyadic "
+            "inputs); matrices with rows but no columns are mirrored only; harness.",
+})
+CHECKS.append({
+    "property_id": "C12",
+    "category": "proof",
+    "technique": "Lean 4 proofs of uniqueness of observables, adapter preprocessing and PageRank contraction + verified "
+                 "checkers on every back-end output + per-run offline rebuild of the Rust extension from the working tree",
+    "text": "For each of the nine accelerated functions a Lean Bool checker accepts an output only if it has the spec-level "
+            "meaning (exact shortest distances / reachable negative cycle / sorted reachable set / valid walk / minimum "
+            "spanning forest / mutual-reachability partition / valid topological order or a cycle); obs_unique_* theorems "
+            "show any two accepted outputs of one input have equal observables, adapter_* theorems that the adapters pose "
+            "the same problem, pagerank_contraction/pagerank_tol_bound justify the PageRank comparison bound. On every run "
+            "rust/ of the working tree is rebuilt offline (cargo, scratch dir) and backend='python', 'rust', None and "
+            "omitted are run on seeded multigraphs; every output goes through the checkers in Lean.",
+    "note": "Trusted: Lean kernel + standard axioms; Rust kernel internals and pyo3 conversions (I/O behaviour only; BFS/DFS "
+            "visit order mirrored); IEEE rounding in PageRank (slack 10 vs n*d); untrusted certificate generators accepted "
+            "only via verified checkers; diagnostics (iterations, objective of topological sort / PageRank) not compared.",
+})
+CHECKS.append({
+    "property_id": "C14",
+    "category": "proof",
+    "technique": "Lean 4 proofs about mirrors of scc.py (Tarjan, Kahn, condense) for every input + verified sound-and-complete "
+                 "checkers on the implementation's outputs + element-for-element mirror correspondence",
+    "text": "tarjan_certifies (the Tarjan mirror returns exactly the mutual-reachability classes, sinks first, fuel proved "
+            "sufficient), kahn_correct (forward order of all nodes iff acyclic, INFEASIBLE otherwise), condense_correct / "
+            "condense_spec, scc_cert and the checker equivalences chkScc_iff, chkTopo_correct, chkCondense_correct hold for "
+            "every input. The outputs of strongly_connected_components, topological_sort, condense and the _edges variants "
+            "(backend='python') are decided per input by those checkers and must equal the mirrors' outputs.",
+    "note": "Trusted: Lean kernel + standard axioms; CPython recursion limit not modelled; inputs with neighbours outside the "
+            "node list are decided on the clauses common to the induced and explored readings (open_clauses_common).",
+})
+CHECKS.append({
+    "property_id": "C17",
+    "category": "proof",
+    "technique": "Lean 4 proofs of the plan checker, the exact optimum (search over residual demands) and the dual-bound "
+                 "argument + those verified procedures run on every plan solve_cg/solve_bp return + Rat mirror of solve_cg",
+    "text": "plan_checker (checkPlan decides exactly: patterns fit / are listed columns, demands met, objective = rolls), "
+            "cs_optimum_correct (minRolls is the true minimum number of rolls), dual_bound and optimal_claim_sound (a "
+            "dual-feasible y, decided over all patterns by a verified bounded-knapsack DP, gives ceil(y.d) <= optimum, so the "
+            "OPTIMAL rule of the repaired code is sound). Every plan returned with a usable status is checked on each explored "
+            "input, OPTIMAL is compared with the proved optimum, and the Rat mirror of solve_cg must return the same plan.",
+    "note": "The search algorithms carry no all-input proof (master-LP mirror certifies is open, solve_bp's tree is not "
+            "modelled): verdicts are per instance from proved checkers. solve_cg mirror in exact rationals vs IEEE doubles. "
+            "max_nodes capped at 100 and 15 s per call in the harness.",
+})
+
+CHECKS.append({
+    "property_id": "C15",
+    "category": "proof",
+    "technique": "Lean 4 proofs of executable definitions and mirrors (component count, k-core peeling, PageRank step / "
+                 "contraction / residual bound, Louvain partition invariant, modularity formula) + per-run correspondence "
+                 "with bit-level Float mirrors",
+    "text": "components_count_correct, kcoreDef_greatest / coreNumDef_spec, kcore_peeling_correct (bucket peeling = "
+            "definitional core numbers for every pop / iteration order), pagerank_step_nonneg / _sum_one, "
+            "pagerank_contraction, pagerank_residual_bound, louvain_partition_inv, louvain_output_partition, "
+            "modularity_reported_eq, prCheck_iff, isPartition_iff hold for every input. Cut vertices, bridges and core "
+            "numbers returned by the real code are compared with the definitions evaluated in Lean; PageRank scores are "
+            "checked exactly against the damped equation within the proved bound and bit-for-bit against the Float mirror; "
+            "Louvain output must be a partition whose reported modularity equals the formula.",
+    "note": "lowlink_correct (low-link DFS = cutVerticesDef / bridgesDef for all inputs) is NOT proved (only "
+            "lowlink_partial): articulation_points / bridges are decided per input by comparing implementation, mirror and "
+            "the definitions over the proved component count. Theorems are at Rat; IEEE rounding is outside them.",
+})
+
 _PENDING = "check not built yet in this round (planned in DESIGN.md §4); no claim made"
 NOT_APPLICABLE = [
     {"property_id": f"C{i:02d}", "reason": _PENDING}
